@@ -155,7 +155,12 @@ func spanToJson(span *tracepb.Span, service string) ([]byte, error) {
 	result["kind"] = span.Kind.String()
 	result["start_time"] = span.StartTimeUnixNano
 	result["end_time"] = span.EndTimeUnixNano
-	result["duration"] = span.EndTimeUnixNano - span.StartTimeUnixNano
+	if span.EndTimeUnixNano >= span.StartTimeUnixNano {
+		result["duration"] = span.EndTimeUnixNano - span.StartTimeUnixNano
+	} else {
+		// The unsigned difference would wrap around to almost 2^64 ns.
+		result["duration"] = uint64(0)
+	}
 	result["dropped_attributes_count"] = uint64(span.DroppedAttributesCount)
 	result["dropped_events_count"] = uint64(span.DroppedEventsCount)
 	result["dropped_links_count"] = uint64(span.DroppedLinksCount)
